@@ -540,6 +540,7 @@ func prettyAll(xs []string) []string {
 }
 
 func c16c(c *Ctx) {
+	c16cStaleTokens(c)
 
 	c16cTokenBeforeLiteral(c)
 	// (o) format(): the token handed back for the formatted text is the token of the text
@@ -1161,4 +1162,67 @@ func c16cTokenBeforeLiteral(c *Ctx) {
 		})
 	}
 	c.Check(n >= 2, "token-before-literal/census", "-", fmt.Sprintf("%d tokens with a gathered literal examined", n), fmt.Sprintf("only %d tokens with a gathered literal found", n))
+}
+
+// c16cStaleTokens: a token that is remembered for the nodes built in a loop (the condition token
+// of a map-script table entry) is taken afresh in every turn. Hoisting `startToken := p.curToken`
+// out of the loop and re-arming it on some ways round only leaves, on the other ways, the token
+// of an earlier element: its line is a line of the input, in range, and names the wrong entry.
+// In SSA that is a token-valued phi at a loop header that can come round the loop unchanged while
+// it is stored somewhere inside the loop.
+func c16cStaleTokens(c *Ctx) {
+	n := 0
+	for _, fn := range c.W.FuncsOf("parser") {
+		if isTestFunc(c.W, fn) || len(fn.Blocks) == 0 {
+			continue
+		}
+		for _, head := range fn.Blocks {
+			if !isLoopHeader(head) {
+				continue
+			}
+			body := loopBody(head)
+			for _, in := range head.Instrs {
+				ph, isPhi := in.(*ssa.Phi)
+				if !isPhi || !typeIs(ph.Type(), "token", "Token") {
+					continue
+				}
+				n++
+				// can it come round unchanged? (through the merges inside the body)
+				stale := false
+				seen := map[ssa.Value]bool{}
+				var walk func(v ssa.Value)
+				walk = func(v ssa.Value) {
+					if v == ssa.Value(ph) {
+						stale = true
+						return
+					}
+					if seen[v] {
+						return
+					}
+					seen[v] = true
+					if q, isQ := v.(*ssa.Phi); isQ && body[q.Block()] && q.Block() != head {
+						for _, e := range q.Edges {
+							walk(e)
+						}
+					}
+				}
+				for i, e := range ph.Edges {
+					if head.Dominates(head.Preds[i]) {
+						walk(e)
+					}
+				}
+				// is it put into something inside the loop?
+				stored := false
+				if ph.Referrers() != nil {
+					for _, r := range *ph.Referrers() {
+						if st, isSt := r.(*ssa.Store); isSt && st.Val == ssa.Value(ph) && body[st.Block()] {
+							stored = true
+						}
+					}
+				}
+				c.Check(!(stale && stored), fmt.Sprintf("%s/token-taken-afresh[%s]", c.W.FuncKey(fn), flagName(c.term(fn, ph))), c.W.Pos(ph.Pos()), "a token remembered for the nodes of a loop is taken afresh in every turn", fn.Name()+" keeps the token "+flagName(c.term(fn, ph))+" for the elements of its loop although the token can come round the loop unchanged: a later element carries the position of an earlier one (its marker names the wrong line)")
+			}
+		}
+	}
+	c.OK("stale-tokens/scanned", "-", fmt.Sprintf("%d token-valued loop variables in the parser", n))
 }
